@@ -4,7 +4,7 @@ From Coq Require Import List NArith ZArith String Bool.
 From GQL Require Import Exec.Syntax Validate.VSyntax Validate.Overlap Validate.OverlapSpec Validate.Rules
      Exec.Exec Proofs.ValidateOverlap Proofs.ValidateRules Proofs.ValidateMerge Proofs.ValidateMemo Proofs.ValidateInputFields Proofs.ValidateArgs Proofs.ValidateCycles Proofs.ValidateUnused Proofs.ValidateMemoHard Proofs.ValidateL1 Validate.All Proofs.ValidateAll Proofs.ValidateCyclesComplete
      Validate.OverlapWf Proofs.ValidateReflect Proofs.ValidateReflectClose Proofs.ValidateFuel Proofs.ValidateDecide
-     Proofs.ValidateWf Proofs.ValidateRank Proofs.ValidateWfDoc Proofs.ValidateClosure Proofs.ValidateRulesDecl Proofs.ValidateLiteral.
+     Proofs.ValidateWf Proofs.ValidateRank Proofs.ValidateWfDoc Proofs.ValidateClosure Proofs.ValidateRulesDecl Proofs.ValidateLiteral Proofs.ValidateWitness.
 Import ListNotations.
 Open Scope string_scope.
 
@@ -394,6 +394,19 @@ Proof.
 Qed.
 Print Assumptions C02_overlap_complete.
 
+(* Soundness with the witness and the location (no hypothesis: any schema, any document --
+   cyclic or not --, with or without the memo tables, any fuel): every node the run reports
+   is a field a of a visited selection set s such that some field b, both reachable in the
+   unfolded selection set (EF: through inline fragments and any chain of spreads), has the
+   same response key and conflicts with it -- Cfl: names, arguments or return types disagree
+   (FieldsInSetCanMerge / SameResponseShape on the two fields), or, recursively, two fields of
+   their unfolded sub-selections with one response key conflict; Cfl refutes compat. *)
+Theorem C02_overlap_sound_witness : forall S D memo fuel x, In x (run_overlap S D memo fuel) ->
+  exists s a b, doc_sets S D s /\ EF S D s a /\ EF S D s b /\ fe_key a = fe_key b /\ fe_id a = x /\
+                Cfl S D false a b /\ ~ compat S D (base2 S) false a b.
+Proof. exact overlap_sound_witness. Qed.
+Print Assumptions C02_overlap_sound_witness.
+
 (* The Prop-level hypotheses follow from decidable tests (Validate/OverlapWf.v), which the
    runner evaluates on every case: ids_ok (selection node ids pairwise distinct and non-zero),
    args_ok (every field node has pairwise distinct argument names), ranked_b (the longest
@@ -414,6 +427,13 @@ Proof.
   intros S D. split; [apply ranked_b_acyclic|]. split; [apply acyclic_no_cycle | apply rank_exists].
 Qed.
 Print Assumptions C02_wf_acyclic.
+
+(* With unique fragment names the certified test decides NoFragmentCycles' declarative
+   predicate (the runner's Spec oracle for that rule). *)
+Theorem C02_cycles_oracle : forall W, NoDup (map wf_name (w_frags W)) ->
+  (ranked_b (erase W) = true <-> ~ Violates_no_fragment_cycles W).
+Proof. exact cycles_oracle. Qed.
+Print Assumptions C02_cycles_oracle.
 
 (* The overlap rule's executable decision, under decidable hypotheses only. *)
 Theorem C02_overlap_exec_decides_b : forall S D memo fuel,
